@@ -130,3 +130,214 @@ def run(fns, unit):
     if unit['kernel'] == 'compat_hashset':
         return run_compat(fns, unit.get('solver_timeout_ms', 60000))
     return {'error': 'unknown kernel'}
+
+
+# --------------------------------------------------------------------------- HyperLogLog::add_hashed for every precision
+class ArrRef:
+    pass
+
+
+class HllInterp(Interp):
+    """registers: Vec<u8> of symbolic length = (len, z3 Array BV64 -> BV8)."""
+
+    def call(self, fr, fname, args):
+        a = [self.operand(fr, x) for x in args]
+        if fname == 'core::num::<impl u64>::leading_zeros':
+            x = a[0]
+            r = z3.BitVecVal(64, 32)
+            for i in range(64):          # highest set bit wins: iterate from low to high
+                r = z3.If(z3.Extract(i, i, x) == 1, z3.BitVecVal(63 - i, 32), r)
+            return r
+        if fname in ('<Vec<u8> as Index<usize>>::index', '<Vec<u8> as IndexMut<usize>>::index_mut'):
+            vec = self.read_ref(a[0])
+            ln, arr = vec.fields
+            bad = z3.simplify(z3.And(self.cur_pc, z3.UGE(a[1], ln)))
+            if not z3.is_false(bad):
+                self.results.append((bad, 'panic', 'index out of bounds (registers)', None))
+            self.cur_pc = z3.simplify(z3.And(self.cur_pc, z3.ULT(a[1], ln)))
+            return Ref((('arrelem', a[0], a[1]), []))
+        if fname == 'std::cmp::max::<u8>':
+            return z3.If(z3.UGT(a[0], a[1]), a[0], a[1])
+        return Interp.call(self, fr, fname, args)
+
+    def read_ref(self, r):
+        root, proj = r.place
+        if root[0] == 'arrelem':
+            vec = self.read_ref(root[1])
+            return z3.Select(vec.fields[1], root[2])
+        return Interp.read_ref(self, r)
+
+    def write_ref(self, r, val):
+        root, proj = r.place
+        if root[0] == 'arrelem':
+            vec = self.read_ref(root[1])
+            self.write_ref(root[1], Struct('VecU8', [vec.fields[0], z3.Store(vec.fields[1], root[2], val)]))
+            return
+        return Interp.write_ref(self, r, val)
+
+
+def run_hll_add_hashed(fns, timeout_ms):
+    t0 = time.time()
+    out = {'paths': 0, 'queries': 0, 'failed': [], 'witnesses': {}, 'cexs': {}}
+    I = HllInterp(fns, 1)
+    fn = I.find(r'hyperloglog::<impl.*>::add_hashed$')
+    b = z3.BitVec('b', 64)
+    h = z3.BitVec('h', 64)
+    regs = z3.Array('regs', z3.BitVecSort(64), z3.BitVecSort(8))
+    ln = z3.BitVec('len', 64)
+    world = {'locals': {'self': Struct('HyperLogLog', [Struct('VecU8', [ln, regs]), b, Opaque('bh'), Opaque('ph')])}}
+    I.world = world
+    pre = z3.And(z3.UGE(b, 4), z3.ULE(b, 18), ln == (bv(1) << b))
+    res = I.run(fn, [Ref((('local', world, 'self'), [])), h], z3.BoolVal(True))
+    out['paths'] = len(res)
+    # independent relational specification of the rank r (no count-leading-zeros):
+    #   1 <= r <= 64-b+1;  r <= 64-b  =>  bit (64-r) of h is set and every higher bit is clear;  r = 64-b+1  =>  h >> b == 0
+    r = z3.BitVec('r', 64)
+    spec = z3.And(z3.UGE(r, 1), z3.ULE(r, 64 - b + 1),
+                  z3.If(z3.ULE(r, 64 - b),
+                        z3.And(z3.LShR(h, 64 - r) == 1),
+                        z3.LShR(h, b) == 0))
+    j = h & ((bv(1) << b) - 1)
+    k = z3.BitVec('k', 64)
+    for pc, kind, val, snap in res:
+        out['queries'] += 1
+        if kind == 'panic':
+            rr, mdl = solve([pre, pc], timeout_ms)
+            if rr != z3.unsat:
+                tag = 'panic:add_hashed ' + val[:50]
+                out['failed'].append(tag if rr == z3.sat else 'UNKNOWN:' + tag)
+                if rr == z3.sat:
+                    out['cexs'][tag] = {'op': 'add_hashed', 'b': mdl.eval(b, model_completion=True).as_long(), 'h': mdl.eval(h, model_completion=True).as_long(), 'old': 0}
+            continue
+        st = snap['self']
+        regs2 = st.fields[0].fields[1]
+        old = z3.Select(regs, j)
+        r8 = z3.Extract(7, 0, r)
+        checks = [('register_is_max_of_old_and_rank', z3.Select(regs2, j) == z3.If(z3.UGT(old, r8), old, r8)),
+                  ('other_registers_unchanged', z3.Implies(z3.And(z3.ULT(k, ln), k != j), z3.Select(regs2, k) == z3.Select(regs, k))),
+                  ('len_and_b_unchanged', z3.And(st.fields[0].fields[0] == ln, st.fields[1] == b))]
+        for tag, post in checks:
+            out['queries'] += 1
+            rr, mdl = solve([pre, pc, spec, z3.Not(post)], timeout_ms)
+            if rr == z3.sat and tag not in out['failed']:
+                out['failed'].append(tag)
+                g = lambda e: mdl.eval(e, model_completion=True)
+                out['cexs'][tag] = {'op': 'add_hashed', 'b': g(b).as_long(), 'h': g(h).as_long(), 'old': g(old).as_long()}
+            elif rr == z3.unknown:
+                out['failed'].append('UNKNOWN:' + tag)
+        # the spec is satisfiable and functional for every (b, h): witnesses
+        if solve([pre, pc, spec, b == 18, r == 47], timeout_ms)[0] == z3.sat:
+            out['witnesses']['rank_max_at_b18'] = 1
+        if solve([pre, pc, spec, b == 4, r == 1], timeout_ms)[0] == z3.sat:
+            out['witnesses']['rank_1_at_b4'] = 1
+        out['witnesses']['ret'] = 1
+    # spec totality: for every (b, h) some r satisfies it (otherwise the checks above would be vacuous for that input)
+    out['queries'] += 1
+    rr, _ = solve([pre, z3.ForAll([r], z3.Not(spec))], timeout_ms)
+    if rr != z3.unsat:
+        out['failed'].append('MODEL: rank specification not total' if rr == z3.sat else 'UNKNOWN:spec_total')
+    out['wall_s'] = round(time.time() - t0, 1)
+    return out
+
+
+_old_run = run
+def run(fns, unit):
+    if unit['kernel'] == 'hll_add_hashed_all_b':
+        return run_hll_add_hashed(fns, unit.get('solver_timeout_ms', 120000))
+    return _old_run(fns, unit)
+
+
+# --------------------------------------------------------------------------- HashIter::next at full 64-bit width
+FVAL = z3.Function('f_of_index', z3.BitVecSort(64), z3.BitVecSort(64))
+
+
+class HashIterInterp(Interp):
+    def rvalue(self, fr, s):
+        s = s.strip()
+        m = re.match(r'^std::option::Option::<usize>::Some\((.*)\)$', s)
+        if m:
+            return OptionVal(z3.BoolVal(True), self.operand(fr, m.group(1)))
+        if s == 'std::option::Option::<usize>::None':
+            return OptionVal(z3.BoolVal(False), bv(0))
+        return Interp.rvalue(self, fr, s)
+
+    def call(self, fr, fname, args):
+        a = [self.operand(fr, x) for x in args]
+        if fname == 'HashIterBuilder::<B>::k':
+            return self.read_ref(a[0]).fields[1]
+        if fname == 'HashIterBuilder::<B>::m':
+            return self.read_ref(a[0]).fields[0]
+        if fname == 'HashIterBuilder::<B>::f':
+            b = self.read_ref(a[0])
+            # self.f[i]: the vector has k entries (setup_f), each already reduced mod m
+            bad = z3.simplify(z3.And(self.cur_pc, z3.UGE(a[1], b.fields[1])))
+            if not z3.is_false(bad):
+                self.results.append((bad, 'panic', 'index out of bounds (f)', None))
+            self.cur_pc = z3.simplify(z3.And(self.cur_pc, z3.ULT(a[1], b.fields[1])))
+            return FVAL(a[1])
+        return Interp.call(self, fr, fname, args)
+
+
+def run_hashiter_next(fns, timeout_ms):
+    t0 = time.time()
+    out = {'paths': 0, 'queries': 0, 'failed': [], 'witnesses': {}, 'cexs': {}}
+    I = HashIterInterp(fns, 1)
+    fn = I.find(r'hash_utils::<impl.*>::next$')
+    m_, k_, h1, h2, i_ = [z3.BitVec(n, 64) for n in ('m', 'k', 'h1', 'h2', 'i')]
+    builder = Struct('HashIterBuilder', [m_, k_, Opaque('bh'), Opaque('f')])
+    holder = {'locals': {'builder': builder}}
+    world = {'locals': {'it': Struct('HashIter', [Ref((('local', holder, 'builder'), [])), h1, h2, i_])}}
+    I.world = world
+    res = I.run(fn, [Ref((('local', world, 'it'), []))], z3.BoolVal(True))
+    out['paths'] = len(res)
+
+    def lemmas(exprs):
+        acc = set()
+
+        def walk(e):
+            if z3.is_app(e):
+                if e.decl().name() in ('udiv64', 'urem64'):
+                    acc.add((e.arg(0), e.arg(1)))
+                for c in e.children():
+                    walk(c)
+        for e in exprs:
+            walk(e)
+        return [z3.Implies(d != 0, z3.ULT(core.UREM(a, d), d)) for a, d in acc]
+    base = z3.And(z3.UGE(m_, 1), z3.ULT(h1, m_), z3.ULT(h2, m_), z3.ULT(FVAL(i_), m_))
+    bound = z3.ULE(m_, 1 << 31)
+    for pc, kind, val, snap in res:
+        lem = lemmas([pc])
+        out['queries'] += 1
+        if kind == 'panic':
+            r, mdl = solve([base, bound, pc] + lem, timeout_ms)
+            if r != z3.unsat:
+                tag = 'panic:HashIter::next ' + val[:50]
+                out['failed'].append(tag if r == z3.sat else 'UNKNOWN:' + tag)
+                out['cexs'][tag] = {'op': 'hashiter_next'}
+            # outside the bound the overflow is real: recorded as a witness that the bound is needed
+            if 'overflow' in val and solve([base, pc] + lem, timeout_ms)[0] == z3.sat:
+                out['witnesses']['overflow_possible_when_m_above_2_31'] = 1
+            continue
+        st = snap['it']
+        some = val.some if z3.is_expr(val.some) else z3.BoolVal(val.some)
+        lem = lemmas([pc, val.payload] if z3.is_expr(val.payload) else [pc])
+        checks = [('next_is_some_iff_i_below_k', some == z3.ULT(i_, k_)),
+                  ('next_yields_position_below_m', z3.Implies(some, z3.ULT(val.payload, m_))),
+                  ('next_advances_i_by_one', st.fields[3] == z3.If(some, i_ + 1, i_)),
+                  ('next_keeps_h1_h2', z3.And(st.fields[1] == h1, st.fields[2] == h2))]
+        for tag, post in checks:
+            out['queries'] += 1
+            r, mdl = solve([base, bound, pc, z3.Not(post)] + lem, timeout_ms)
+            if r != z3.unsat and tag not in out['failed']:
+                out['failed'].append(tag if r == z3.sat else 'UNKNOWN:' + tag)
+                out['cexs'][tag] = {'op': 'hashiter_next'}
+        out['witnesses']['ret'] = 1
+    out['wall_s'] = round(time.time() - t0, 1)
+    return out
+
+
+_old_run2 = run
+def run(fns, unit):
+    if unit['kernel'] == 'hashiter_next':
+        return run_hashiter_next(fns, unit.get('solver_timeout_ms', 120000))
+    return _old_run2(fns, unit)
